@@ -24,6 +24,32 @@ type c09Case struct {
 	// starts anyway, so the same statements are due; a fault inside it makes the resumed run take the
 	// "partially applied checkpoint" path of Pending.
 	Ck bool `json:"first_file_is_checkpoint,omitempty"`
+	// Cks: further files (by index) that carry the directive. A first run starts at the LAST checkpoint
+	// of the directory; the files in front of it (earlier checkpoints included) are never executed.
+	Cks []int `json:"checkpoint_files,omitempty"`
+}
+
+// isCk reports whether file i carries the checkpoint directive; first is the file a first run starts at.
+func (c *c09Case) isCk(i int) bool {
+	if c.Ck && i == 0 {
+		return true
+	}
+	for _, k := range c.Cks {
+		if k == i {
+			return true
+		}
+	}
+	return false
+}
+
+func (c *c09Case) first() int {
+	f := 0
+	for i := range c.Shape {
+		if c.isCk(i) {
+			f = i
+		}
+	}
+	return f
 }
 
 func (c *c09Case) dir() ([]dirFile, []string) {
@@ -31,7 +57,7 @@ func (c *c09Case) dir() ([]dirFile, []string) {
 	var flat []string
 	for i, n := range c.Shape {
 		var b strings.Builder
-		if c.Ck && i == 0 {
+		if c.isCk(i) {
 			b.WriteString("-- atlas:checkpoint\n\n")
 		}
 		if n == 0 {
@@ -39,7 +65,9 @@ func (c *c09Case) dir() ([]dirFile, []string) {
 		}
 		for j := 0; j < n; j++ {
 			s := fmt.Sprintf("S%d_%d;", i+1, j+1)
-			flat = append(flat, s)
+			if i >= c.first() {
+				flat = append(flat, s)
+			}
 			b.WriteString(s + "\n")
 		}
 		d = append(d, dirFile{fmt.Sprintf("%d_f%d.sql", i+1, i+1), b.String()})
@@ -69,7 +97,7 @@ func c09Monitor(c *c09Case, at []AttemptOut) (bool, string, string) {
 	{
 		k := 0
 		for i, n := range c.Shape {
-			for j := 0; j < n; j++ {
+			for j := 0; j < n && i >= c.first(); j++ {
 				fileOf[k] = i
 				k++
 			}
@@ -258,8 +286,43 @@ func runC09(e *Env) error {
 				cases = append(cases, c)
 			}
 		}
+		// further checkpoint placements (a first run starts at the last one), single-fault schedules
+		for i := 0; i < nplain; i++ {
+			c := cases[i]
+			if len(c.Shape) < 2 || len(c.Faults) > 3 {
+				continue
+			}
+			for mask := 2; mask < 1<<len(c.Shape); mask++ {
+				cc := c
+				cc.Cks = nil
+				for k := range c.Shape {
+					if mask&(1<<k) != 0 {
+						cc.Cks = append(cc.Cks, k)
+					}
+				}
+				cases = append(cases, cc)
+			}
+		}
+		// files without statements (comments only) at every position, single-fault schedules
+		if !e.Thorough() {
+			for _, sh := range c09Shapes(3, 2, 0) {
+				zero := false
+				for _, k := range sh {
+					zero = zero || k == 0
+				}
+				if !zero {
+					continue
+				}
+				n := opsOf(sh)
+				cases = append(cases, c09Case{Shape: sh, Faults: [][]int{{}, {}}})
+				for f1 := 0; f1 < n; f1++ {
+					cases = append(cases, c09Case{Shape: sh, Faults: [][]int{{f1}, {}, {}}})
+					cases = append(cases, c09Case{Shape: sh, Faults: [][]int{{f1, f1 + 1}, {}, {}}})
+				}
+			}
+		}
 		e.Res.Exhaustive = true
-		e.Res.Rule = fmt.Sprintf("exhaustive: directory shapes of 1..%d files x %d..%d statements each x {no fault, every single failing operation (statement or revision write), statement+deferred-write double fault, every ordered pair of faults in two successive runs} followed by two clean runs; the same on directories whose first file is a checkpoint; non-trivial = at least one fault fired; distinct by (shape, schedule)", mf, min, ms)
+		e.Res.Rule = fmt.Sprintf("exhaustive: directory shapes of 1..%d files x %d..%d statements each x {no fault, every single failing operation (statement or revision write), statement+deferred-write double fault, every ordered pair of faults in two successive runs} followed by two clean runs; the same on directories whose first file is a checkpoint; single-fault schedules on every other placement of checkpoint files (first run starts at the last one) and on directories holding statement-less files; non-trivial = at least one fault fired; distinct by (shape, schedule)", mf, min, ms)
 	}
 	parallel(e.Workers, len(cases), func(i int) {
 		c := cases[i]
